@@ -38,7 +38,10 @@ Attribution: a failing (src, out) pair is delta-debugged over the formatter's ow
              findings are narrow predicates over that description (vlib.c17_findings); an edit that
              cannot matter under any reading (one run of blanks replaced by another, blanks removed
              at a line end, ...) but changes xonsh's tree is the parser's blank-sensitivity, counted
-             and sampled in the notes, not a formatter failure.
+             and sampled in the notes, not a formatter failure; so is the indentation unit when the tokenizer reports
+             the same INDENT/DEDENT structure for both texts (the parser's reading depends on the indentation's width).
+             The lexical context of an edit does not rely on the tree's line numbers alone (they are off by one after a
+             command line that holds a multi-line string): the logical line is also parsed on its own.
 """
 
 from __future__ import annotations
@@ -46,6 +49,7 @@ from __future__ import annotations
 import io
 import json
 import os
+import re
 import signal
 import sys
 
@@ -171,6 +175,25 @@ def canon_tree(tree, depth=0, strict=False):
 
 
 _KW = None
+_WORD = re.compile(r"[A-Za-z_][A-Za-z0-9_]*")
+_ESC = re.compile(r"\\[ntrfvx0]")
+
+
+def _literal_words(tok):
+    """identifier-like words of a string literal's value, written the way ast.unparse (repr) writes it"""
+    import ast
+
+    try:
+        v = ast.literal_eval(tok)
+    except Exception:  # noqa: BLE001  (a xonsh-only prefix, e.g. p'...')
+        v = None
+    if isinstance(v, bytes):
+        text = repr(v)[2:-1]
+    elif isinstance(v, str):
+        text = repr(v)[1:-1]
+    else:
+        text = tok[re.match(r"[A-Za-z]*", tok).end():]
+    return _WORD.findall(_ESC.sub(" ", text))
 
 
 def _accounts_for_names(src, tree):
@@ -195,11 +218,36 @@ def _accounts_for_names(src, tree):
     except Exception:  # noqa: BLE001
         return True
     want = Counter(t.string for t in toks if t.type == xtok.NAME and t.string not in _KW and t.string.isascii())
-    if not want:
-        return True
     # a backslash-newline glued to a word joins it with the next one (`a\<newline>b` is the word `ab`)
     # ... and inside [ ] xonsh glues the words of a command argument together (`[ a   b ]` is `[ab]`)
     joined = set()
+    # The words inside string literals end up in the tree as well (a constant, or a command argument): they are
+    # counted on both sides.  Counted on the tree's side only, the `a` and `b` of an unrelated `'a  b'` would
+    # stand in for identifiers that the recovery dropped (`x = (a<newline> and b<newline> or c)` after a command
+    # line is read as `x = ![x =] or c`).
+    text_toks = [t for t in toks if t.type not in (xtok.NL, xtok.COMMENT)]
+    for i, t in enumerate(text_toks):
+        if t.type == xtok.STRING:
+            words = _literal_words(t.string)
+        elif t.type == xtok.FSTRING_MIDDLE:
+            words = _WORD.findall(_ESC.sub(" ", repr(t.string)[1:-1]))
+        else:
+            continue
+        words = [w for w in words if w not in _KW]
+        want.update(words)
+        # adjacent literals are one constant to Python (`'a' 'b'` is 'ab'), a literal glued to a word is part of
+        # that word to a command (`a'b c'd`): such words only have to occur as substrings
+        p = text_toks[i - 1] if i else None
+        n = text_toks[i + 1] if i + 1 < len(text_toks) else None
+        strs = (xtok.STRING, xtok.FSTRING_START, xtok.FSTRING_END)
+        if (p is not None and (p.type in strs or p.end == t.start)) or (n is not None and (n.type in strs or n.start == t.end)):
+            joined.update(words)
+            if p is not None and p.end == t.start and p.type == xtok.NAME:
+                joined.add(p.string)
+            if n is not None and n.start == t.end and n.type == xtok.NAME:
+                joined.add(n.string)
+    if not want:
+        return True
     sq = 0
     for i, t in enumerate(toks):
         if t.type == xtok.ERRORTOKEN and t.string.endswith("\n"):
@@ -399,12 +447,29 @@ def check_source(src, family="?", reduce=True, want_labels=True, tolerate=True, 
         signal.setitimer(signal.ITIMER_REAL, 0)
 
 
+def _probe_subproc(text):
+    """Is this logical line, parsed on its own under the reading of the current case, a command?
+    (vlib.c17_analysis.signature asks when the line numbers of the tree do not say so.)"""
+    for cand in (text + "\n", text + "\n    pass\n"):
+        try:
+            t = xparse(cand)
+        except _Timeout:
+            raise
+        except Exception:  # noqa: BLE001
+            continue
+        return bool(A.subproc_lines(t))
+    return False
+
+
 def _units(script, det):
     """The formatter's edits as independently revertible units: every edit on its own, except the
     indentation of logical lines, which only makes sense as a whole (one unit)."""
+    from vlib import c17_findings
+
     units, indent = [], []
     for e, d in zip(script, det):
-        if d["rule"] == "indent":
+        if d["rule"] == "indent" or (d["rule"] == "continuation-indent" and c17_findings.hash_before_continuation(d)):
+            # (the second: a statement start to the parser, a continuation line to the tokenizer - recorded as C17-F17)
             indent.append((e, d))
         else:
             units.append([(e, d)])
@@ -448,17 +513,17 @@ def _attribute(res, ref, out, script, family, c17_findings, tolerate=True):
     path itself stays exercised."""
     src = ref.src
     open_ids = _state["open"]
-    _, det = A.signature(src, script, ref.tree)
+    _, det = A.signature(src, script, ref.tree, probe=_probe_subproc)
     if len(det) != len(script):
-        res.failures.append(Failure("tree-differs", {"src": src, "family": family, "ctx": _jsonctx(ctx)}, "source could not be re-tokenised for attribution",
+        res.failures.append(Failure("tree-differs", {"src": src, "family": family, "ctx": _jsonctx(_state.get("ctx"))}, "source could not be re-tokenised for attribution",
                                     bucket="unattributable"))
         return
     units = _units(script, det)
     known_units, rest = [], []
     for u in units:
-        fids = {c17_findings.edit_finding(d) for _, d in u}
-        if len(fids) == 1 and None not in fids and fids <= open_ids:
-            known_units.append((u, next(iter(fids))))
+        fid = c17_findings.unit_finding([d for _, d in u])
+        if fid is not None and fid in open_ids:
+            known_units.append((u, fid))
         else:
             rest.append(u)
     if tolerate and known_units and common.h64(src)[-1] != "0":     # deterministic 15-in-16, no draw outside Hypothesis
@@ -475,9 +540,8 @@ def _attribute(res, ref, out, script, family, c17_findings, tolerate=True):
     groups = {}
     for u in withheld:
         sig = tuple(sorted({(d["rule"], d["shape"], d["ctx"]) for _, d in u}))
-        fids = {c17_findings.edit_finding(d) for _, d in u}
-        fid = next(iter(fids)) if (len(fids) == 1 and None not in fids and fids <= open_ids) else None
-        groups.setdefault(fid or sig, []).append(u)
+        fid = c17_findings.unit_finding([d for _, d in u])
+        groups.setdefault(fid if (fid is not None and fid in open_ids) else sig, []).append(u)
     for key, us in groups.items():
         text = _apply(src, applied + us)
         verdict.flags = set()
@@ -530,6 +594,22 @@ def _emit(res, ref, kind, detail, units, text, family, c17_findings):
                                 finding=fid, bucket=fid or "%s:%s" % (kind, "+".join("%s/%s/%s" % x for x in sig[:3]))))
 
 
+def _same_block_structure(a, b):
+    """xonsh's tokenizer (the formatter's mode) reports the same tokens, INDENTs, DEDENTs and NEWLINEs in the
+    same order for both texts (the width of an INDENT, blank lines and comments aside)."""
+    xtok = _state["xtok"]
+    loose = (xtok.INDENT, xtok.DEDENT, xtok.NEWLINE)
+
+    def seq(text):
+        return [(t.type, "" if (t.type in loose or not t.string.strip(" \t\x0c")) else t.string)
+                for t in A.tokenize(text) if t.type not in (xtok.NL, xtok.COMMENT)]
+
+    try:
+        return seq(a) == seq(b)
+    except Exception:  # noqa: BLE001
+        return False
+
+
 def _one_physical_line(d):
     """the logical line that holds this edit is written on one physical line"""
     t = d["next"] if d["next"] is not None else d["prev"]
@@ -547,6 +627,13 @@ def _exempt(ref, sig, det, text, c17_findings):
 
     if c17_findings.parser_blank_sensitivity(sig, det):
         return "parser-sensitive-to-width-of-a-blank-run"
+    if sig and all(rule == "indent" and ctx in ("subproc", "python") for rule, _, ctx in sig) and _same_block_structure(ref.src, text):
+        # only the indentation unit has to be taken back, although xonsh's own tokenizer reports the same tokens in the
+        # same INDENT/DEDENT structure for both texts: the parser's reading depends on the *width* of the indentation
+        # (`if c:<newline><tab>tar - $HOME || x y` holds the Python expression `tar - $HOME`, indented by two or
+        # more columns the command `tar - $HOME`).  Raw `with!` bodies (ctx macro-block, F04) and statements that only
+        # the parser sees (F17) are not of this kind.
+        return "parser-sensitive-to-width-of-the-indentation"
     pythonish = all(ctx in ("python", "token", "fstring") for _, _, ctx in sig)
     # CPython as referee for text that is plain Python.  Same CPython tree => as Python the formatter kept the
     # meaning; what is left is xonsh reading the text as a command (no name is known under ctx=set()).  That
@@ -1258,7 +1345,8 @@ def main(run):
     astcanon.self_test()
     common.replay_tier(run, _replay_case)
     thorough = run.tier == "thorough"
-    nw = int(os.environ.get("C17_NW", 16))
+    nw = int(os.environ.get("C17_NW", 16))          # number of generator streams (part of what a seed means)
+    procs = max(1, min(16, int(os.environ.get("VERIF_PROCS") or 16)))      # worker processes that run them
     # (d) real text
     import time
 
@@ -1272,26 +1360,26 @@ def main(run):
 
     texts = repo_texts()
     run.extra["repo_texts"] = len(texts)
-    common.pool_map(run, __name__, "worker_texts", [(texts[i::nw], "repo-text", run.scratch) for i in range(nw) if texts[i::nw]])
+    common.pool_map(run, __name__, "worker_texts", [(texts[i::nw], "repo-text", run.scratch) for i in range(nw) if texts[i::nw]], procs=procs)
     lap("repo-text")
     files = corpus.all_files()
     rnd = random.Random(run.seed)        # lays out which stdlib files are sampled; not inside a property
     rnd.shuffle(files)
     files = files[:run.n(45, 900)]
-    common.pool_map(run, __name__, "worker_corpus", [(files[i::nw], run.scratch) for i in range(nw) if files[i::nw]])
+    common.pool_map(run, __name__, "worker_corpus", [(files[i::nw], run.scratch) for i in range(nw) if files[i::nw]], procs=procs)
     lap("stdlib")
     # (a) generated Python
     npy = run.n(int(os.environ.get("C17_NPY", 220)), 9000)
     common.pool_map(run, __name__, "worker_py",
-                    [(common.worker_seed(run.seed, w), npy, 20 + 8 * (w % 4), run.scratch) for w in range(nw)])
+                    [(common.worker_seed(run.seed, w), npy, 20 + 8 * (w % 4), run.scratch) for w in range(nw)], procs=procs)
     lap("python-generated")
     # (b), (c) generated xonsh and mixtures
     nx = run.n(int(os.environ.get("C17_NX", 380)), 8000)
-    common.pool_map(run, __name__, "worker_xsh", [(common.worker_seed(run.seed, 100 + w), nx, run.scratch) for w in range(nw)])
+    common.pool_map(run, __name__, "worker_xsh", [(common.worker_seed(run.seed, 100 + w), nx, run.scratch) for w in range(nw)], procs=procs)
     lap("xonsh-generated")
     # (e) untokenisable input and the CLI
     nc = run.n(60, 1500)
-    common.pool_map(run, __name__, "worker_cli", [(common.worker_seed(run.seed, 200 + w), nc, run.scratch) for w in range(8)])
+    common.pool_map(run, __name__, "worker_cli", [(common.worker_seed(run.seed, 200 + w), nc, run.scratch) for w in range(8)], procs=procs)
     lap("cli")
     run.extra["phase_seconds"] = phases
     st = run.stats
@@ -1316,6 +1404,11 @@ def main(run):
         "blanks between two tokens of a line replaced by another, blanks removed at a line end, blank lines removed, a comment-only "
         "line re-indented; outside macro bodies, strings and f-strings) is a blank-sensitivity of the parser (e.g. a tab before a "
         "trailing comment on a command line), not a formatter defect: counted under 'exempt:*', samples in notes",
+        "likewise, when only the indentation of the logical lines has to be taken back although xonsh's tokenizer reports the same "
+        "tokens in the same INDENT/DEDENT structure for input and output (outside raw `with!` bodies), the parser's reading depends on "
+        "the width of the indentation (`if c:<newline><tab>tar - $HOME || x y`: the Python expression `tar - $HOME` when indented by one "
+        "column, a command when indented by two or more): counted under 'exempt:parser-sensitive-to-width-of-the-indentation'",
+        "the words inside string literals are part of the token accounting on both sides (text and tree)",
         "for text CPython accepts, CPython's parser is the referee when xonsh's two parses disagree although the edits are in Python text",
         "the text of a `( ... )` subshell is compared by its own tree (it is a xonsh program handed to `xonsh -c`), not byte for byte",
         "carriage returns, form feeds, BOMs and non-UTF-8 files are out of domain (the CLI reads with universal newlines)",
